@@ -152,8 +152,6 @@ fn is_allowed_char_after_keyword(ch: char) -> bool {
     ch != '.' && ch != '$' && !ch.is_ascii_alphanumeric()
 }
 
-const MAX_LENGTH: usize = 40;
-
 fn identifier() -> impl Parser<StringView, Output = Token, Error = ParserError> {
     read_p()
         .filter(char::is_ascii_alphabetic)
@@ -163,13 +161,6 @@ fn identifier() -> impl Parser<StringView, Output = Token, Error = ParserError> 
                 .zero_or_more(),
             StringCombiner,
         )
-        .and_then(|value| {
-            if value.len() > MAX_LENGTH {
-                Err(ParserError::IdentifierTooLong)
-            } else {
-                Ok(value)
-            }
-        })
         .to_token(TokenType::Identifier)
 }
 
@@ -194,7 +185,11 @@ where
     F: Fn(&char) -> bool,
 {
     one_p('&')
-        .and(one_p(radix), StringCombiner)
+        // the radix letter is not case sensitive
+        .and(
+            read_p().filter(move |ch: &char| ch.eq_ignore_ascii_case(&radix)),
+            StringCombiner,
+        )
         .and(
             one_char_to_str('-')
                 .to_option()
